@@ -224,7 +224,8 @@ func issue(l *lab.SocketLab, kind string, client int, t *tally, mu *sync.Mutex, 
 		return false
 	}
 	classify := func(out *lab.RawResponse, err error) {
-		reached := (kind == "hold" || kind == "slow-backend") && reachedLive()
+		// with the 1 s handler timeout configured any exchange may be cut off by it (a loaded machine is enough)
+		reached := (kind == "hold" || kind == "slow-backend" || l.Cfg.Server.Timeouts.Handler == 1) && reachedLive()
 		mu.Lock()
 		defer mu.Unlock()
 		if err != nil || out == nil || out.Status == 0 || out.BodyErr != "" {
